@@ -13,6 +13,19 @@
 //            outcome must be what the plain serial call gives (reported: the common outcome, or
 //            other:threads-disagree:<a>/<b>/<c>; the counters fd cn pg and the echo are those of thread 0);
 //            bit2: the same with nested parallelism switched on
+//            bits 3-6 (wave 4): the C++ ROUTE the set takes from the comma expression to tapkee::embed
+//              0 the set is passed as it is (copy-initialised from the expression, then by value)
+//              1 copy construction            ParametersSet q(ps);
+//              2 copy assignment, fresh set   ParametersSet q; q = ps;
+//              3 copy assignment into a set that held another (valid, duplicate-free) expression before
+//              4 copy assignment into a set that held an expression with a keyword given twice before
+//              5 copy assignment, then self-assignment   q = ps; q = q;
+//              6 kwargs[ps]
+//              7 the chain interface   with(ps).withKernel(k).withDistance(d).withFeatures(f).embedRange(b, e)
+//              8 the receiver of a user's merge()   ParametersSet q(ps); q.merge(ps); q.merge(ParametersSet());
+//              9 std::move construction, then std::move assignment into a set that held a duplicate before
+//             10 a std::vector<ParametersSet> slot that is overwritten by erase() of the element before it
+//            whatever the route, the outcome must be the one documented for the comma expression
 //     kwid   keyword numbering of translate/t_val.py (0..21); >= 100: a name tapkee does not know
 //     T val  I <int> | S <hexfloat> | B 0/1 | M <method id> | N <neighbors id> | E <eigen id> |
 //            C <strategy id> | P 0/1 (progress fn NULL / real) | X 0/1/2 (cancel NULL / returns false /
@@ -33,6 +46,8 @@
 //                             reference parameter per type, repr = method id for M, Parameter::repr() otherwise
 //       g:<name> <T>:<repr>   every entry of A after A.merge(D)
 //       l:<kwid> found | missed   A[name] for every keyword of either list and for one name nobody set
+//       rt<r>   <d><s>  (wave 4) A after route r (see R lines; all but the chain interface): d = check() throws,
+//                       s = the map equals A's
 //
 // Direct probe of a predicate object of predicates.hpp (wave 2), one per line:
 //   V <pred> <T> <nargs> { <arg> }* <value>     pred 0 Positivity 1 NonNegativity 2 InRange 3 InClosedRange,
@@ -73,6 +88,7 @@ static int g_stopf = 0;
 static long n_kernel = 0, n_distance = 0, n_fvec = 0, n_fdim = 0, n_cancel = 0, n_progress = 0;
 static std::string g_echo;
 static int g_omp_mode = 0;
+static int g_route = 0;
 // in the parallel-region mode only the calls made by thread 0 of the application's region are counted / echoed
 static inline bool observed_thread() { return !g_omp_mode || omp_get_ancestor_thread_num(1) == 0; }
 
@@ -311,8 +327,60 @@ static ParametersSet build_comma(const std::vector<Parameter>& ps_list)
     Parameter e = ps_list[4];
     if (n == 5) return (a, b, c, d, e);
     ParametersSet ps = (a, b, c, d, e);
-    for (size_t i = 5; i < n; i++) ps = (ps, ps_list[i]);
+    for (size_t i = 5; i < n; i++) (void)(ps, ps_list[i]);     // ParametersSet::operator, works in place
     return ps;
+}
+
+// ------------------------------------------------------------------ routes from the expression to embed() (wave 4)
+// the previous contents of a re-used variable: values that differ from every default, so that anything that survives
+// the assignment shows in the echo of the merged set
+static ParametersSet used_without_duplicate()
+{
+    return (num_neighbors = 7, target_dimension = 1, gaussian_kernel_width = 2.5, method = PassThru,
+            max_iteration = 17, check_connectivity = false);
+}
+static ParametersSet used_with_duplicate()
+{
+    return (target_dimension = 1, num_neighbors = 7, target_dimension = 2);
+}
+
+// every route except the chain interface ends in a set handed to `go` by const reference (embed() then takes it by
+// value, as always); a route uses ONLY the operations it names, so that a defect of one operation shows on its routes
+// and cannot be masked or spread by another.  Returns false for an unknown route.
+template <class Go> static bool with_route(int route, const ParametersSet& ps, Go go)
+{
+    switch (route)
+    {
+    case 0: go(ps); return true;
+    case 1: { ParametersSet q(ps); go(q); return true; }
+    case 2: { ParametersSet q; q = ps; go(q); return true; }
+    case 3: { ParametersSet q = used_without_duplicate(); q = ps; go(q); return true; }
+    case 4: { ParametersSet q = used_with_duplicate(); q = ps; go(q); return true; }
+    case 5: { ParametersSet q; q = ps; ParametersSet& same = q; q = same; go(q); return true; }
+    case 6: { ParametersSet q = kwargs[ps]; go(q); return true; }
+    case 7: go(ps); return true;             // the chain interface: see embed_outcome
+    case 8: { ParametersSet q(ps); q.merge(ps); q.merge(ParametersSet()); go(q); return true; }
+    case 9:
+    {
+        ParametersSet t1(ps);
+        ParametersSet q(std::move(t1));
+        ParametersSet u = used_with_duplicate();
+        u = std::move(q);
+        go(u);
+        return true;
+    }
+    case 10:
+    {
+        std::vector<ParametersSet> v;
+        v.push_back(used_with_duplicate());
+        v.push_back(ps);
+        v.push_back(used_without_duplicate());
+        v.erase(v.begin());                  // v[0] = v[1]; v[1] = v[2]
+        go(v[0]);
+        return true;
+    }
+    default: return false;
+    }
 }
 
 // ------------------------------------------------------------------ structural probe of the container
@@ -482,6 +550,26 @@ static void probe_main(std::istringstream& in)
         try { G.check(); }
         catch (const stichwort::multiple_parameter_error&) { dup2 = true; }
         os << "dupg=[" << (dup2 ? 1 : 0) << "];";
+        // wave 4: the set after every route (copy construction, the assignments, kwargs[], merge receiver, moves,
+        // a vector slot): rt<r>=[<check() throws><map equal to A's>]
+        std::ostringstream ref;
+        {
+            ParametersSet A2(A);
+            A2.visit([&](const Parameter& p) { ref << p.name() << "=" << type_and_repr(p) << ";"; });
+        }
+        for (int route = 1; route <= 10; route++)
+        {
+            if (route == 7) continue;
+            with_route(route, A, [&](const ParametersSet& r) {
+                ParametersSet q(r);          // check() and visit() are not const
+                bool d = false;
+                try { q.check(); }
+                catch (const stichwort::multiple_parameter_error&) { d = true; }
+                std::ostringstream m;
+                q.visit([&](const Parameter& p) { m << p.name() << "=" << type_and_repr(p) << ";"; });
+                os << "rt" << route << "=[" << (d ? 1 : 0) << (m.str() == ref.str() ? 1 : 0) << "];";
+            });
+        }
     }
     catch (const std::exception& ex)
     {
@@ -499,8 +587,17 @@ template <class K, class D, class F> static std::string embed_outcome(const std:
     std::string outcome;
     try
     {
-        TapkeeOutput out = embed(idx.begin(), idx.end(), K(), D(), F(), ps);
-        outcome = "returned";
+        if (g_route == 7)
+        {
+            K k; D d; F f;
+            TapkeeOutput out = tapkee::with(ps).withKernel(k).withDistance(d).withFeatures(f).embedRange(idx.begin(), idx.end());
+            outcome = "returned";
+        }
+        else
+        {
+            TapkeeOutput out = embed(idx.begin(), idx.end(), K(), D(), F(), ps);
+            outcome = "returned";
+        }
     }
     catch (const no_data_error&) { outcome = "no_data"; }
     catch (const wrong_parameter_error&) { outcome = "wrong_parameter"; }
@@ -554,6 +651,7 @@ static void child_main(const std::string& line)
         emit_and_exit("other:bad-request-line");
     g_stopf = stopf & 1;
     g_omp_mode = (stopf >> 1) & 3;
+    g_route = (stopf >> 3) & 15;
     std::vector<Parameter> ps_list;
     for (int i = 0; i < nkw; i++)
     {
@@ -562,7 +660,7 @@ static void child_main(const std::string& line)
         ps_list.push_back(p);
     }
     // the comma expression (a, b, c, ...): Parameter::operator, then ParametersSet::operator,
-    ParametersSet ps = build_comma(ps_list);
+    const ParametersSet ps0 = build_comma(ps_list);
     std::vector<int> idx(N);
     for (int i = 0; i < N; i++) idx[i] = i;
 
@@ -571,6 +669,10 @@ static void child_main(const std::string& line)
     alarm(8);
     // C14_HALF = 0 / 1 compiles only the instantiations without / with a real features callback
     // (the check builds the two halves in parallel); unset: all eight
+    bool known = false;
+    try
+    {
+    known = with_route(g_route, ps0, [&](const ParametersSet& ps) {
     switch (mask & 7)
     {
 #if !defined(C14_HALF) || C14_HALF == 0
@@ -587,6 +689,11 @@ static void child_main(const std::string& line)
 #endif
     default: emit_and_exit("other:not-compiled-in-this-half");
     }
+    });
+    }
+    catch (const std::exception& ex) { emit_and_exit(std::string("other:route-threw:") + typeid(ex).name()); }
+    catch (...) { emit_and_exit("other:route-threw"); }
+    if (!known) emit_and_exit("other:bad-request-line");
     emit_and_exit("other:fell-through");
 }
 
